@@ -290,7 +290,14 @@ func c18DvCase(r *Run, rng *Rng, force int) {
 	cmp := func(g *xl.File, phase string, want []map[string]string) {
 		got, err := g.GetDataValidations(c18Sheet)
 		if err != nil {
-			failp("dv:getter-error", phase, err.Error())
+			cls := ""
+			for _, w := range want {
+				if strings.ContainsAny(unhx(strings.TrimPrefix(w["Formula1"], "s="))+unhx(strings.TrimPrefix(w["Formula2"], "s=")), "<&") {
+					cls = ":formula-markup"
+				}
+			}
+			seen["dv:getter-error"] = true
+			failp("dv:getter-error"+cls, phase, err.Error())
 			return
 		}
 		if len(got) != len(want) {
@@ -303,7 +310,11 @@ func c18DvCase(r *Run, rng *Rng, force int) {
 				if (want[i][k] == "~" && gm[k] == "s=-") || (want[i][k] == "s=-" && gm[k] == "~") {
 					continue // nil == absent attribute
 				}
-				failp("dv:"+k, phase, fmt.Sprintf("validation %d field %s: set %q, getter %q", i, k, want[i][k], gm[k]))
+				cls := ""
+				if (k == "Formula1" || k == "Formula2") && strings.Contains(unhx(strings.TrimPrefix(want[i][k], "s=")), "&") {
+					cls = ":contains-amp"
+				}
+				failp("dv:"+k+cls, phase, fmt.Sprintf("validation %d field %s: set %q, getter %q", i, k, want[i][k], gm[k]))
 			}
 		}
 	}
